@@ -23,9 +23,10 @@ def sh(cmd, cwd, env=None):
 def main():
     prop, m = sys.argv[1], sys.argv[2]
     checks = sys.argv[3:]
-    wt = "/tmp/wt/%s" % prop
-    src = "/tmp/wt/out/%s/%s" % (prop, m)
-    sid = "%s-%s" % (prop.upper(), m)
+    base = os.environ.get("WT", "/tmp/wt")
+    wt = "%s/%s" % (base, prop)
+    src = "%s/out/%s/%s" % (base, prop, m)
+    sid = "%s-%s%s" % (prop.upper(), os.environ.get("WTAG", ""), m)
     meta = {"id": sid, "property": prop.upper(), "ran": []}
     sh("git checkout -q -- . && git clean -fdq && git checkout -q --detach main", wt)
     meta["repo_commit"] = sh("git rev-parse --short HEAD", wt)[1].strip()
